@@ -55,6 +55,12 @@ def merge(c, viol, tag):
                 owner = None
             if row['field'] == f0:
                 rows.append(f'({lib.cstr(row["id"])}, {opt(owner)})')
+        for row in c.get('id_rows', []):
+            inside = row['id'] in c['ids']
+            if inside and row['res'].get('val') != {'s': row['id']}:
+                viol.append(v('oracle:merge-id-field', c, f'{tag}: the key field id({row["id"]!r}) of the merged dataset gives {row["res"]}'))
+            if not inside and 'val' in row['res']:
+                viol.append(v('oracle:merge-id-field', c, f'{tag}: id({row["id"]!r}) returns {row["res"]["val"]} although {row["id"]!r} is not among the merged ids {c["ids"]}'))
         want = sorted(set.intersection(*[set(d['fields']) for d in c['datasets']]) | {'ids', 'id'})
         if sorted(c['fields']) != want:
             viol.append(v('oracle:merge-fields', c, f'{tag}: merged fields {sorted(c["fields"])}, expected the common ones {want}'))
@@ -77,6 +83,9 @@ def flt(c, viol, tag):
     if 'build_exc' in c:
         viol.append(v('oracle:filter-build-failed', c, f'{tag}: Filter ({w}) failed to build: {c["build_exc"]}'))
         return None
+    cb = c.get('checkids_before_filter')
+    if cb and (cb.get('exc') or not cb.get('same_ids') or not cb.get('same_hash')):
+        viol.append(v('oracle:checkids-not-transparent', c, f'{tag}: a CheckIds() in front of the Filter changes the kept ids or their hash: {cb}'))
     ru = c.get('reuse')
     if ru and ru['got'] != ru['want']:
         viol.append(v('oracle:filter-object-follows-an-earlier-dataset', c, f'{tag}: the Filter object ({w}) was first connected to a dataset with ids {ids}; connected '
@@ -98,6 +107,13 @@ def flt(c, viol, tag):
 def join(c, viol, tag):
     def side(s):
         return [(i, s['keys'][i][0] if len(s['keys'][i]) == 1 else to_hash_id(s['keys'][i])) for i in s['ids']]
+    if c.get('int_keys'):
+        lk = {c['left']['keys'][i][0] for i in c['left']['ids']}
+        rk = {c['right']['keys'][i][0] for i in c['right']['ids']}
+        want = {'inner': lk & rk, 'left': lk, 'right': rk, 'outer': lk | rk}[c['how']]
+        if 'build_exc' in c or c['ids'] != sorted(want):
+            viol.append(v('oracle:join-ids', c, f'{tag}: how={c["how"]} over the integer keys {sorted(lk)} and {sorted(rk)}: ids are {c.get("ids", c.get("build_exc"))}, expected {sorted(want)}'))
+        return None
     L, R = side(c['left']), side(c['right'])
     built = 'build_exc' not in c
     rows = []
@@ -138,6 +154,8 @@ def group(c, viol, tag):
     if 'build_exc' in c:
         viol.append(v('oracle:group-build-failed', c, f'{tag}: GroupBy failed to build: {c["build_exc"]}'))
         return None
+    if c.get('ids_after_unknown_key') is not None and c['ids_after_unknown_key'] != c['new_ids']:
+        viol.append(v('oracle:group-ids-changed', c, f'{tag}: after a field was asked for the unknown group "zz" the ids are {c["ids_after_unknown_key"]}, before they were {c["new_ids"]}'))
     rows = []
     for row in c['rows']:
         r = row['image']
